@@ -20,7 +20,7 @@ CLAIMED = {
          "For every FIXED/LPC residual the independent decoder recovers (values, partition order, parameters, coded size), a brute-force search over the encoder's search space computes the optimum in u64 and the emitted size must equal it (when below 2^28); workloads: tone + graded/switching noise, loud content, smooth blocks with a near-Nyquist full-scale burst (8/12-bit: parameters above the sample width), odd and 64..127-sample blocks.",
          "Residuals and sizes are those refdec recovers.", "DESIGN.md 2/C13"),
  "C15": ("exploration", "runtime monitoring: parser/Decode round trip of every emitted stream and frame",
-         "Every emitted stream (all widths, side channels, explicit size/rate codes, extra metadata blocks, the empty stream) is parsed with the crate's parser; the tree must consume all input, verify, re-serialise identically and decode to the input; frames and subframes are also parsed on their own (subframes at their channel's width); single frames at every length class of the coded frame number; metadata blocks up to 300 kB.",
+         "Every emitted stream (all widths, side channels, explicit size/rate codes, extra metadata blocks, the empty stream) is parsed with the crate's parser; the tree must consume all input, verify, re-serialise identically and decode to the input; frames and subframes are also parsed on their own (subframes at their channel's width); single frames at every length class of the coded frame number and of every block length 1..=32767; metadata blocks up to 300 kB; streams assembled with the public constructors from fixed/LPC subframes at every partition order (down to one-sample partitions, predictor order up to and equal to the first partition's length), also cross-checked by the reference decoder.",
          "none beyond the harness", "DESIGN.md 2/C15"),
 
  "C02": ("exploration", "runtime monitoring: strict RFC 9639 validator (refdec) over enumerated header code spaces and generated streams",
@@ -36,7 +36,7 @@ CLAIMED = {
          "Each field at min-1/min/max/max+1/0/usize::MAX (floats: -0, -eps, 0, tiny, 1, 1+eps, inf, NaN), all pairs of such boundary values (thorough) and random assignments: an independent restatement of the documented ranges must equal verify()/into_verified(); accepted configurations encode a 12-input probe corpus without panic and losslessly.",
          "The independent predicate is transcribed from the documentation.", "DESIGN.md 2/C07"),
  "C08": ("exploration", "runtime monitoring: count_bits() vs bits written into three sink types for every reachable component",
-         "Every component reachable from encoder output, parser output and public constructors is written into MemSink<u8>, MemSink<u64> and a user sink; lengths must equal count_bits() and bits must be identical; frames also before/after precompute; constructed residuals straddle the SIMD/scalar quotient-sum switch (confirmed by hook counters) and sums above 2^32 (counting sink; real 512 MiB sinks in thorough).",
+         "Every component reachable from encoder output, parser output and public constructors is written into MemSink<u8>, MemSink<u64> and a user sink; lengths must equal count_bits() and bits must be identical; frames also before/after precompute; constructed residuals straddle the SIMD/scalar quotient-sum switch (confirmed by hook counters) and sums above 2^32 (counting sink; real 512 MiB sinks in thorough); components only the parser can produce (foreign Rice methods, crafted frames) and streams with added metadata blocks are included; every write is preceded by a counting-sink pass so that a grossly wrong count is reported instead of exhausting memory.",
          "Components above 64 MiB are checked with a counting sink plus the harness's own size model.", "DESIGN.md 2/C08"),
  "C10": ("exploration", "runtime monitoring: call histories on one long-lived thread vs each call alone on a fresh thread",
          "Histories of 5-40 mixed calls (stream encode to both sink types, frame-level encode, parse+re-serialise; shrinking/growing block sizes, channel/width/LPC/Rice/window changes incl. alphas closer than 2^-16, single and multi thread) run on one thread; every result must equal the same call made alone on a freshly spawned thread; histories contain calls that fail part-way (failing sink, unserialisable header) and runs of 70-130 distinct block lengths on one thread.",
@@ -51,7 +51,7 @@ CLAIMED = {
          "Channels 1..=8 x bytes-per-sample 1..=4 x capacities {32,33,64,257,4096} x fill lengths (enumerated for small capacities) incl. refilling a full buffer with shorter blocks: buffer contents (seen through verbatim-only frames), Context md5/total/frame number and emitted streams (both thread modes) must be identical for fill_interleaved and fill_le_bytes; the (FrameBuf, Context) pair is driven with sequences containing refused (too long) and empty fills and FrameBuf::resize steps, after each of which both delivery paths must have left the pair in the same state.",
          "4-byte samples only at frame-buffer level.", "DESIGN.md 2/C14"),
  "C16": ("fault_enumeration", "runtime monitoring: exhaustive bit-flip / burst / byte-XOR / truncation corruption of emitted streams + random inputs into the parser",
-         "Every single-bit flip of the frame region of 10-40 small emitted streams, every 2..8-bit burst pattern at every bit offset, every XOR byte at every byte, every truncation, plus 10^5-10^7 random inputs/splices and valid frames whose coded frame/sample number is replaced by an arbitrary 1..7-byte code with both CRCs recomputed: the parser must not panic, and an accepted altered stream must decode to the original audio.",
+         "Every single-bit flip of the frame region of 10-40 small emitted streams, every 2..8-bit burst pattern at every bit offset, every XOR byte at every byte, every truncation, plus 10^5-10^7 random inputs/splices and valid frames whose coded frame/sample number is replaced by an arbitrary 1..7-byte code, whose block-size / sample-rate / channel / sample-size codes are replaced by arbitrary (also reserved) codes with matching extra header bytes (0x00, 0xFF.., random), all with both CRCs recomputed, and structured STREAMINFO edits: the parser must not panic, and an accepted altered stream must decode to the original audio.",
          "Release-profile arithmetic; the debug-profile pass (thorough) adds overflow checks.", "DESIGN.md 2/C16"),
  "C17": ("exploration", "runtime monitoring: enumerated boundary/wrap-around argument grid executed in supervised children",
          "The argument grid of the property (0, min-1, min, max, max+1, 2^8+k, 2^16+k, 2^32+k, usize::MAX per argument of every entry point, both thread modes) is enumerated; each call runs in a supervised child; outside the supported domain the outcome must be Err - never Ok, panic, hang or abort; fills after FrameBuf::resize follow the same capacity rule; ragged slices (not in the property's list) are observed, not judged.",
